@@ -1098,17 +1098,17 @@ Hypothesis Hnj : nojoin sp.
 
 Lemma complete_pre_shape t tid x : is_skipped x = false ->
   match complete_pre sp t tid x with
-  | PreIgnored t1 => t1 = t /\ is_completed (t_state (get_task (fst t) tid)) = true
+  | PreIgnored t1 => (t1 = t /\ is_completed (t_state (get_task (fst t) tid)) = true) \/
+                     (wf_state (fst t) = PAUSED /\ same_but tid x (fst t) (fst t1) /\ snd t1 = snd t)
   | PreRaised t1 => same_but tid x (fst t) (fst t1) /\ snd t1 = snd t
   | PreCmds t1 cmds =>
       same_but tid x (fst t) (fst t1) /\ okcs cmds /\ in_range 0 cmds /\ length cmds <= spec_size sp /\
-      ((wf_state (fst t) = PAUSED /\ cmds = [] /\ snd t1 = snd t) \/
-       (wf_state (fst t) <> PAUSED /\
-        ((existsb is_run cmds = false /\ snd t1 = snd t ++ [OCheck]) \/ (existsb is_run cmds = true /\ snd t1 = snd t))))
+      wf_state (fst t) <> PAUSED /\
+      ((existsb is_run cmds = false /\ snd t1 = snd t ++ [OCheck]) \/ (existsb is_run cmds = true /\ snd t1 = snd t))
   end.
 Proof.
   intros Hx. unfold complete_pre. rewrite Hx. cbn [negb]. rewrite andb_true_r.
-  destruct (is_completed (t_state (get_task (fst t) tid))) eqn:Ec; [split; reflexivity|].
+  destruct (is_completed (t_state (get_task (fst t) tid))) eqn:Ec; [left; split; reflexivity|].
   set (s1 := task_set_state (fst t) tid x).
   assert (S1 : same_but tid x (fst t) s1).
   { unfold s1, task_set_state. apply same_but_upd; [right; reflexivity|reflexivity]. }
@@ -1124,10 +1124,9 @@ Proof.
   assert (S2 : same_but tid x (fst t) (upd_task s1 tid r2)) by (apply same_but_upd; [left; exists x; exact S1|exact Hr2]).
   change (wf_state (upd_task s1 tid r2)) with (wf_state (fst t)).
   destruct (is_paused (wf_state (fst t))) eqn:Ep.
-  - split; [exact S2|]. split; [constructor|]. split; [intros ? ? ? []|]. split; [simpl; lia|]. left.
-    split; [apply state_eqb_PAUSED; exact Ep|]. split; reflexivity.
+  - right. split; [apply state_eqb_PAUSED; exact Ep|]. split; [exact S2|reflexivity].
   - split; [apply same_but_upd; [left; exists x; exact S2|reflexivity]|].
-    split; [apply Forall_okc_map, Hnj|]. split; [apply map_to_cmd_in_range|]. split; [rewrite map_length; exact Hlen|]. right.
+    split; [apply Forall_okc_map, Hnj|]. split; [apply map_to_cmd_in_range|]. split; [rewrite map_length; exact Hlen|].
     split; [intros E; rewrite E in Ep; discriminate|].
     rewrite run_iff_names. destruct (next_names nx); [left|right]; split; reflexivity.
 Qed.
@@ -1183,14 +1182,16 @@ Proof.
   intros [Hn Hchk] Hx Hsk Hf. rewrite complete_task_eq. destruct f as [|f]; [lia|].
   pose proof (complete_pre_shape (s, ops) tid x Hsk) as Hsh.
   destruct (complete_pre sp (s, ops) tid x) as [t1|t1|t1 cmds].
-  - destruct Hsh as [-> Hc]. cbn [fst snd] in *.
-    split; [eapply same_but_NC; [exact Hn|apply same_but_refl|exact Hc|auto|apply Hn]|exact Hchk].
+  - destruct Hsh as [[-> Hc]|[Hp [Hs Ho]]]; cbn [fst snd] in *.
+    + split; [eapply same_but_NC; [exact Hn|apply same_but_refl|exact Hc|auto|apply Hn]|exact Hchk].
+    + rewrite Ho. split; [eapply same_but_NC; [exact Hn|exact Hs|exact Hx|auto|apply Hn]|].
+      destruct Hs as [_ [B _]]. intros Hw. congruence.
   - destruct Hsh as [Hs Ho]. cbn [fst snd] in *. rewrite Ho. eapply force_fail_W; [exact Hn|exact Hs].
-  - destruct Hsh as [Hs [Hok [Hrg [Hlen Hcase]]]]. cbn [fst snd] in *.
+  - destruct Hsh as [Hs [Hok [Hrg [Hlen [Hnp Hcase]]]]]. cbn [fst snd] in *.
     assert (Hsame := Hs). destruct Hsame as [A [B [C [D [E [F [G G']]]]]]].
     assert (Hops : (forall o, In o ops -> In o (snd t1)) /\ forallb plain_op (snd t1) = true).
     { pose proof (N_ops _ _ _ Hn) as Hp.
-      destruct Hcase as [[_ [_ ->]]|[_ [[_ ->]|[_ ->]]]]; split; auto.
+      destruct Hcase as [[_ ->]|[_ ->]]; split; auto.
       - intros o Ho. apply in_or_app. left. exact Ho.
       - rewrite forallb_app, Hp. reflexivity. }
     destruct Hops as [Hsub Hpl].
@@ -1205,8 +1206,7 @@ Proof.
     intros Hr. pose proof (ds_running _ _ _ Hd Hr) as Hr1.
     destruct (ds_new _ _ _ Hd) as [nt [more [T1 [T2 [T3 [T4 [T5 [T6 T7]]]]]]]].
     assert (Hw0 : wf_state s = RUNNING) by congruence.
-    destruct Hcase as [[Hp _]|[_ [[_ Ho]|[Hrun _]]]].
-    + congruence.
+    destruct Hcase as [[_ Ho]|[Hrun _]].
     + right. left. left. rewrite T3, Ho. apply in_or_app. left. apply in_or_app. right. left. reflexivity.
     + left. specialize (T6 Hr Hrun). destruct nt as [|r0 nt]; [contradiction|].
       exists (length (tasks (fst t1))), r0. split.
